@@ -477,7 +477,7 @@ Proof.
   destruct HI as [HI2 HK]. destruct (Hstep g (e_base a) tr HI2 Hv2) as (a2' & HI' & Hfr & HP).
   destruct (InvC_step g g a t l c a2' tr es c' (conj HI2 HK) Hv HI' Hfr) as (K1 & K2 & K3).
   - rewrite (Hh g (e_base a) tr HI2 Hv2). lia.
-  - intros Hidle. destruct (Hi _ HP Hidle) as [[Hl ->]|->]; [|reflexivity].
+  - intros Hidle. destruct (Hi _ HP Hidle) as [[Hl E]|E]; [subst c'|exact E].
     destruct HK as (_ & _ & _ & Hz). specialize (Hz t). rewrite Hv2 in Hz. specialize (Hz Hl).
     unfold view5 in Hv. inversion Hv. lia.
   - exists (mk5 a t a2' c'). split; [exact K1|]. split; [exact K2|]. rewrite K3. apply Hk. exact HP.
